@@ -76,3 +76,34 @@ MUTANTS["C10"] = [
       "        self.write_raw(string.rstrip(\"\\n\") + \"\\n\", flags)\n", twin=True),
     M("twin-le-form", OUT, "        if flags & VERBOSE:\n            return self._verbosity >= VERBOSE", "        if flags & VERBOSE:\n            return VERBOSE <= self._verbosity", twin=True),
 ]
+
+DAP = "src/clikit/args/default_args_parser.py"
+AVA = "src/clikit/args/argv_args.py"
+HRS = "src/clikit/resolver/help_resolver.py"
+
+MUTANTS["C05"] = [
+    M("options-reset-dropped", DAP, "        self._arguments = OrderedDict()\n        self._options = OrderedDict()\n\n        arguments = OrderedDict()",
+      "        self._arguments = OrderedDict()\n\n        arguments = OrderedDict()", expect="C05-R1"),
+    M("arguments-reset-dropped", DAP, "        self._arguments = OrderedDict()\n        self._options = OrderedDict()\n\n        arguments = OrderedDict()",
+      "        self._options = OrderedDict()\n\n        arguments = OrderedDict()", expect="C05-R1"),
+    M("reset-after-parse", DAP,
+      "        self._arguments = OrderedDict()\n        self._options = OrderedDict()\n\n        arguments = OrderedDict()",
+      "        self._arguments = OrderedDict()\n\n        arguments = OrderedDict()", expect="C05-R1"),
+    M("reset-only-when-strict", DAP, "        self._options = OrderedDict()\n\n        arguments = OrderedDict()",
+      "        if not lenient:\n            self._options = OrderedDict()\n\n        arguments = OrderedDict()", expect="C05-R1"),
+    M("tokens-not-copied", DAP, "tokens = raw_args.tokens[:]", "tokens = raw_args.tokens", expect="C05-R2"),
+    M("argv-pop-before-copy", AVA, "        argv = argv[:]\n        self._script_name = argv.pop(0)\n", "        self._script_name = argv.pop(0)\n        argv = argv[:]\n", expect="C05-R2"),
+    M("parser-extends-command-names", DAP, "        arguments.update(fmt.get_arguments())\n",
+      "        arguments.update(fmt.get_arguments())\n        fmt.get_command_names(False).append(None)\n", expect="C05-R2"),
+    M("f18-regression", HRS,
+      "            try:\n                return super(HelpResolver, self).resolve(args, application)\n            finally:\n                tokens.insert(0, self._help_command_name)\n",
+      "            return super(HelpResolver, self).resolve(args, application)\n", expect="C05-R2"),
+    M("restore-only-on-success", HRS,
+      "            try:\n                return super(HelpResolver, self).resolve(args, application)\n            finally:\n                tokens.insert(0, self._help_command_name)\n",
+      "            resolved = super(HelpResolver, self).resolve(args, application)\n            tokens.insert(0, self._help_command_name)\n            return resolved\n", expect="C05-R2"),
+    M("resolver-consumes-tokens", "src/clikit/resolver/default_resolver.py", "        tokens = args.tokens\n        named_commands",
+      "        tokens = args.tokens\n        tokens.reverse()\n        named_commands", expect="C05-R2"),
+    M("twin-clear-reset", DAP, "        self._options = OrderedDict()\n\n        arguments = OrderedDict()", "        self._options = {}\n\n        arguments = OrderedDict()", twin=True),
+    M("twin-list-copy", DAP, "tokens = raw_args.tokens[:]", "tokens = list(raw_args.tokens)", twin=True),
+    M("twin-reset-helper-order", DAP, "        self._arguments = OrderedDict()\n        self._options = OrderedDict()\n", "        self._options = OrderedDict()\n        self._arguments = OrderedDict()\n", twin=True),
+]
